@@ -1,6 +1,7 @@
 From Coq Require Extraction ExtrOcamlBasic.
 From Common Require Import Words.
-From Stable Require Import StableSpec StableModel.
+From Stable Require Import StableSpec StableModel StableHeap.
 Extraction Language OCaml.
 Extraction "model.ml" anchor init step observe ss_init check_step next_sstate check_trace
-  elems sel other order inorder.
+  elems sel other order inorder
+  linit lstep lobserve lelems items free_walk hget lsel.
